@@ -217,10 +217,14 @@ def build_workload(group, opts, rng):
             kw["min_log_F_ext"], kw["max_log_F_ext"] = -2.0, 2.0
         if opts["test"] == "cnls":
             # keep the non-linear fits affordable
-            big = n >= 16 and opts["num_F_ext_evaluations"] == 0 and rng.random() < 0.7
-            data["n"] = min(n, 16) if big else min(n, 8)  # >= 10 fits are needed before the early stop can fire
+            big = n >= 16 and opts["num_F_ext_evaluations"] == 0 and opts.get("num_RC", 0) <= 0 and opts.get("num_RCs") in (None, "empty") and rng.random() < 0.7
+            # 'big': enough points, noise and evaluations for the early termination of the automatic
+            # num_RC range to fire (measured: 29-31 of 32 fits returned for 19-21 noisy points)
+            data["n"] = 20 if big else min(n, 8)
             data["mask"] = [i for i in mask if i < data["n"]]
-            kw["max_nfev"] = 15
+            if big:
+                data["noise_pct"] = 0.5
+            kw["max_nfev"] = 100 if big else 15
             kw["timeout"] = 60
             if abs(opts["num_F_ext_evaluations"]) > 10:
                 kw["num_F_ext_evaluations"] = 10 if opts["num_F_ext_evaluations"] > 0 else -10
